@@ -27,7 +27,7 @@ RULE = ("full in-memory stack: real Router + 1..3 generated drivers (1-3 groups,
 ASSUMPTIONS = ["BLOB payloads are compared by C08; Element.enabled toggles at run time are not in the quantifier",
                "numbers are compared numerically within the format's resolution",
                "a device without enabled properties may or may not be listed"]
-REQUIRED_EVENTS = ["sessions", "client_handshakes_for_one_device", "sessions_with_a_tty_client", "tty_client_properties_compared", "sessions_with_lagging_blob_link", "driver_ops_during_handshake", "checkpoints", "library_client_properties_compared", "reference_mirror_messages",
+REQUIRED_EVENTS = ["sessions", "client_submits_with_nothing_assigned", "client_handshakes_for_one_device", "sessions_with_a_tty_client", "tty_client_properties_compared", "sessions_with_lagging_blob_link", "driver_ops_during_handshake", "checkpoints", "library_client_properties_compared", "reference_mirror_messages",
                    "snooping_client_checkpoints", "ops_with_bytes_in_flight", "depth3_sessions"]
 
 QUICK_SHARDS = 4
@@ -299,6 +299,9 @@ async def session(ctx, case):
                     continue
                 chosen = rng.sample(names, rng.randrange(1, min(3, len(names)) + 1))
                 kind = view[d][p]["kind"]
+                if rng.random() < 0.15:
+                    chosen = []          # submit() with nothing assigned: a write the device has nothing to answer to
+                    ctx.count("client_submits_with_nothing_assigned")
                 for nm in chosen:
                     vec.get_element(nm).value = client_value(rng, kind, None)
                 try:
